@@ -6,7 +6,7 @@ use std::fs::create_dir_all;
 use std::sync::Arc;
 use std::thread;
 use std::thread::JoinHandle;
-use std::time::{Duration, UNIX_EPOCH};
+use std::time::{Duration, SystemTime, UNIX_EPOCH};
 
 use serde::{Deserialize, Serialize};
 
@@ -48,6 +48,16 @@ const FLUSH_INTERVAL: Duration = Duration::from_millis(1000);
 pub struct HashCache {
     cache: Arc<InnerCache>,
     flusher: HashCacheFlusher,
+}
+
+/// Returns the number of milliseconds since the Unix epoch.
+/// The timestamps before the epoch are counted down from `u64::MAX`,
+/// so different timestamps give different numbers.
+fn timestamp_ms(timestamp: SystemTime) -> u64 {
+    match timestamp.duration_since(UNIX_EPOCH) {
+        Ok(since_epoch) => since_epoch.as_millis() as u64,
+        Err(e) => u64::MAX - e.duration().as_millis() as u64,
+    }
 }
 
 impl HashCache {
@@ -97,12 +107,10 @@ impl HashCache {
         hash: FileHash,
     ) -> Result<(), Error> {
         let value = CachedFileInfo {
-            modified_timestamp_ms: file
-                .modified()
-                .map_err(|e| format!("Unable to get file modification timestamp: {e}"))?
-                .duration_since(UNIX_EPOCH)
-                .unwrap_or(Duration::ZERO)
-                .as_millis() as u64,
+            modified_timestamp_ms: timestamp_ms(
+                file.modified()
+                    .map_err(|e| format!("Unable to get file modification timestamp: {e}"))?,
+            ),
             file_len: file.len(),
             data_len,
             hash,
@@ -138,12 +146,11 @@ impl HashCache {
             None => return Ok(None), // not found in cache
         };
 
-        let modified = metadata
-            .modified()
-            .map_err(|e| format!("Unable to get file modification timestamp: {e}"))?
-            .duration_since(UNIX_EPOCH)
-            .unwrap_or(Duration::ZERO)
-            .as_millis() as u64;
+        let modified = timestamp_ms(
+            metadata
+                .modified()
+                .map_err(|e| format!("Unable to get file modification timestamp: {e}"))?,
+        );
 
         if value.modified_timestamp_ms != modified || value.file_len != metadata.len() {
             Ok(None) // found in cache, but the file has changed since it was cached
